@@ -300,6 +300,8 @@ class Driver:
                 return self.br.if_then_else(cond, mk(st["t"]), mk(st["f"]))
             except _Propagate as p:
                 raise p.exc
+        if op == "peek":
+            return self.opnd(st["a"])
         if op == "getitem":
             a = self.opnd(st["a"])
             i = self.opnd(st["i"])
